@@ -26,7 +26,10 @@ ASSUMPTIONS = [
     "reference calendar vlib/refcal.py",
     "24:00 starting points are not generated (the statement does not define "
     "how end-of-day interacts with clamping)",
-    "1 microsecond tolerance on the time of day when decimals are involved",
+    "1 microsecond tolerance on the time of day when decimals are involved; "
+    "such cases are not judged when the exact part lands within that "
+    "tolerance of midnight (float rounding then decides the day the month / "
+    "year step starts from)",
 ]
 
 
@@ -115,6 +118,11 @@ def check_case(case):
                 d = M.make_duration(dkw)
                 q = p + d if route == "p+d" else d + p if route == "d+p" else p - d
             date, sod, cls, clamped = expected(cm, kw, dkw, sign)
+            if not int_class and min(sod, 86400 - sod) <= tol:
+                # decimal fields are binary floats: when the exact part lands
+                # within a microsecond of midnight, rounding decides which
+                # day the month / year step starts from - not decidable
+                return Outcome(skip=True, classes=["ambiguous/day_boundary"])
             classes += cls
             nq = M.Native(cm, q)
             problems = nq.problems
